@@ -1062,6 +1062,8 @@ def expected(op, L, R):
             return ('plain', 'd: pose op scalar -> array')
         if R in ARR and op == '*':
             return ('plainorraise', 'd: pose * vector/array -> array, or raise on non-conforming shape')
+        if R == 'NDArray' and op in ('+', '-'):
+            return ('plainorraise', 'd (SMPose._op2): pose +- array of the shape of the pose -> array, or raise on any other shape')
         if op == '**' and R == 'Int':
             return ('obj', L, 'd: pose ** int')
         if L == 'SE3' and op == '*' and R == 'Plucker':
@@ -1432,4 +1434,152 @@ def check_array_branch_dimension(run, rule='R6d'):
                               left, (' (tested instead: %s)' % ', '.join(dims)) if dims else '', ', '.join(sorted(set(forwarders))[:4])), f=f, node=r)
     if n < 6:
         run.error('R6d: only %d value returns found in the array branch of SMPose.__mul__ (expected >= 6)' % n)
+    return n
+
+
+# ------------------------------------------------------------------------------------------ guards of the operator methods themselves
+TYPE_TESTS = ('isinstance', 'isscalar', 'isvector', 'ismatrix', 'issubclass', 'isnumberlist')
+FORWARD = {v[0] for v in OPS.values()}
+
+
+def _type_tested(fs, name):
+    """a dominating fact, with the polarity `true`, that tests the type of `name`"""
+    for fc in fs:
+        if not fc[1]:
+            continue
+        for x in ast.walk(fc[2].ast):
+            if isinstance(x, ast.Call):
+                fn = getattr(x.func, 'id', getattr(x.func, 'attr', None))
+                if fn in TYPE_TESTS and x.args and isinstance(x.args[0], ast.Name) and x.args[0].id == name:
+                    return True
+                if fn == 'type' and len(x.args) == 1 and isinstance(x.args[0], ast.Name) and x.args[0].id == name:
+                    return True
+            if isinstance(x, ast.Attribute) and x.attr == '__class__' and isinstance(x.value, ast.Name) and x.value.id == name:
+                return True
+    return False
+
+
+def check_reflected_guards(run, rule='R6g'):
+    """A reflected operator method (__rmul__, __radd__ ...) is called with ANY left operand whose own method gave up: a list, a tuple,
+    an array, an unrelated object.  Each of its value-returning paths must have tested the type of that operand, or hand the pair
+    to the forward method (which the operator table R6 decides).  A method that multiplies the untested operand into its element
+    arrays leaves the rejection to NumPy, which broadcasts a conforming list or array instead of raising."""
+    from ..cfg import CFG, must_facts, pure_locals, _subst_pure
+    from ..callgraph import own_walk
+    prog = run.prog
+    I = Interp(prog)
+    seen = set()
+    n = 0
+    for cn in LIB:
+        for op, (fwd, refl) in OPS.items():
+            if refl == fwd:
+                continue
+            p = provides(I, cn, refl)
+            if p is None or not isinstance(p[1], Function) or p[1].key in seen:
+                continue
+            g = p[1]
+            seen.add(g.key)
+            if len(g.params) < 2:
+                continue
+            other = g.params[1]
+            cfg = CFG(g.node)
+            facts = must_facts(cfg)
+            reach = cfg.reachable()
+            env = pure_locals(g.node)
+            for r in own_walk(g.node):
+                if not (isinstance(r, ast.Return) and r.value is not None):
+                    continue
+                if isinstance(r.value, ast.Name) and r.value.id == 'NotImplemented':
+                    continue
+                node = cfg.node_of(r)
+                if node is None or node.id not in reach:
+                    continue
+                n += 1
+                v = _subst_pure(r.value, env)          # diff = left.__sub__(right); return -diff
+                while isinstance(v, ast.UnaryOp):
+                    v = v.operand
+                construct = '%s: return %s' % (refl, src(r.value, 50))
+                if isinstance(v, ast.Call) and isinstance(v.func, ast.Attribute) and v.func.attr in FORWARD:
+                    run.holds(rule, g.key, construct, 'hands the pair to the forward method %s, whose dispatch the operator table decides' % v.func.attr, f=g, node=r)
+                    continue
+                if _type_tested(facts.get(node.id, frozenset()), other):
+                    run.holds(rule, g.key, construct, 'reached only after a type test of the left operand %r' % other, f=g, node=r)
+                else:
+                    run.violation(rule, g.key, construct, 'the reflected operator returns a value without any test of the type of its left operand %r: '
+                                  'a list, tuple or array on the left (its own %s gives up) is combined element-wise with the stored values by '
+                                  'NumPy broadcasting instead of being rejected, so an undocumented pairing returns a %s' %
+                                  (other, fwd, cn), f=g, node=r)
+    return n
+
+
+def check_guard_direction(run, rule='R6s'):
+    """`isinstance(self, other.__class__)` is true for an operand of ANY ancestor class of self's class.  Where the operator table
+    requires `L op R` to raise for an ancestor R of L whose elements have the shape of L's (so that nothing downstream can tell
+    them apart by shape), the same-class branch must not be entered through that test unless the helper it calls tests the class
+    in the other direction (as SMPose._op2 does).  Otherwise the pair is rejected only when the element VALUES fail the
+    constructor's validation."""
+    from ..callgraph import own_walk
+    prog = run.prog
+    I = Interp(prog)
+    n = 0
+    seen = set()
+    for L in LIB:
+        anc_all = [R for R in LIB if R != L and I.issub(L, R) and I.shape_of(R) is not None and I.shape_of(R) == I.shape_of(L)]
+        if not anc_all:
+            continue
+        for op, (fwd, refl) in OPS.items():
+            if op not in ARITH:
+                continue
+            anc = [R for R in anc_all if expected(op, L, R)[0] == 'raise']
+            if not anc:
+                continue
+            p = provides(I, L, fwd)
+            if p is None or not isinstance(p[1], Function):
+                continue
+            g = p[1]
+            if (g.key, L) in seen or len(g.params) < 2:
+                continue
+            seen.add((g.key, L))
+            me, other = g.params[0], g.params[1]
+            for st in own_walk(g.node):
+                if not isinstance(st, ast.If):
+                    continue
+                t = st.test
+                hit = False
+                for x in ast.walk(t):
+                    if isinstance(x, ast.Call) and getattr(x.func, 'id', None) == 'isinstance' and len(x.args) == 2 and \
+                            isinstance(x.args[0], ast.Name) and x.args[0].id == me:
+                        k = x.args[1]
+                        if (isinstance(k, ast.Attribute) and k.attr == '__class__' and isinstance(k.value, ast.Name) and k.value.id == other) or \
+                                (isinstance(k, ast.Call) and getattr(k.func, 'id', None) == 'type' and len(k.args) == 1 and
+                                 isinstance(k.args[0], ast.Name) and k.args[0].id == other):
+                            hit = True
+                if not hit:
+                    continue
+                rets = [r for b in st.body for r in ast.walk(b) if isinstance(r, ast.Return) and r.value is not None
+                        and not (isinstance(r.value, ast.Name) and r.value.id == 'NotImplemented')]
+                if not rets:
+                    continue
+                n += 1
+                # does a helper called in the branch test the class in the other direction?
+                other_dir = False
+                for b in st.body:
+                    for c in ast.walk(b):
+                        if isinstance(c, ast.Call) and isinstance(c.func, ast.Attribute) and isinstance(c.func.value, ast.Name) and c.func.value.id == me:
+                            k2, mem = prog.lookup_member(prog.classes.get(L), c.func.attr)
+                            if isinstance(mem, Function) and len(mem.params) >= 2:
+                                hs, ho = mem.params[0], mem.params[1]
+                                for y in ast.walk(mem.node):
+                                    if isinstance(y, ast.Call) and getattr(y.func, 'id', None) == 'isinstance' and len(y.args) == 2 and \
+                                            isinstance(y.args[0], ast.Name) and y.args[0].id == ho and isinstance(y.args[1], ast.Attribute) and \
+                                            y.args[1].attr == '__class__' and isinstance(y.args[1].value, ast.Name) and y.args[1].value.id == hs:
+                                        other_dir = True
+                construct = '%s %s: same-class branch' % (L, op)
+                if other_dir:
+                    run.holds(rule, g.key, construct, 'the helper called in the branch tests the class in the other direction: only equal classes pass both', f=g, node=st)
+                else:
+                    run.violation(rule, g.key, construct, 'the branch is entered through %s, which is true for a right operand of the ancestor class %s; '
+                                  '%s %s %s must raise, but the operand reaches %s and is rejected only if its element values fail the validation of the '
+                                  'constructor (an operand of class %s holding values that pass is not rejected)' %
+                                  (src(t, 50), '/'.join(anc), L, op, anc[0], src(rets[0].value, 50), anc[0]), f=g, node=st)
     return n
